@@ -1,3 +1,132 @@
 package main
 
-func selfTest(p *PropertyDef, variants, repo string) (int, int, []string) { return 0, 0, nil }
+import (
+	"encoding/json"
+	"fmt"
+	"os"
+	"os/exec"
+	"path/filepath"
+	"strings"
+	"sync"
+)
+
+// Thorough-tier self-test: every seeded variant of the property (one broken
+// instance per rule) must make that rule report that construct on a scratch
+// copy of /repo's current tree, and every benign (behaviour-preserving)
+// variant must stay silent. A patch that no longer applies to an edited tree
+// is skipped, not failed. Failures make the check exit 2 (broken machinery),
+// never VIOLATION.
+
+type variant struct {
+	Name     string `json:"name"`
+	Kind     string `json:"kind"`
+	Property string `json:"property"`
+	Rule     string `json:"rule"`
+	Contains string `json:"construct_contains"`
+}
+
+func selfTest(p *PropertyDef, variantsDir, repo string) (okN, skipN int, fails []string) {
+	b, err := os.ReadFile(filepath.Join(variantsDir, "index.json"))
+	if err != nil {
+		return 0, 0, []string{"cannot read variants index: " + err.Error()}
+	}
+	var all []variant
+	if err := json.Unmarshal(b, &all); err != nil {
+		return 0, 0, []string{"variants index: " + err.Error()}
+	}
+	var mine []variant
+	for _, v := range all {
+		if v.Property == p.ID {
+			mine = append(mine, v)
+		}
+	}
+	self, _ := os.Executable()
+	var mu sync.Mutex
+	var wg sync.WaitGroup
+	sem := make(chan struct{}, 8)
+	for _, v := range mine {
+		wg.Add(1)
+		go func(v variant) {
+			defer wg.Done()
+			sem <- struct{}{}
+			defer func() { <-sem }()
+			res, msg := runVariant(self, repo, variantsDir, p.ID, v)
+			mu.Lock()
+			defer mu.Unlock()
+			switch res {
+			case "ok":
+				okN++
+			case "skip":
+				skipN++
+			default:
+				fails = append(fails, v.Name+": "+msg)
+			}
+		}(v)
+	}
+	wg.Wait()
+	return
+}
+
+func runVariant(self, repo, variantsDir, prop string, v variant) (string, string) {
+	tmp, err := os.MkdirTemp("", "apdlint_variant_")
+	if err != nil {
+		return "fail", err.Error()
+	}
+	defer os.RemoveAll(tmp)
+	dst := filepath.Join(tmp, "repo")
+	os.MkdirAll(dst, 0o755)
+	entries, _ := os.ReadDir(repo)
+	for _, e := range entries {
+		n := e.Name()
+		if e.IsDir() || strings.HasSuffix(n, "_test.go") {
+			continue
+		}
+		if strings.HasSuffix(n, ".go") || n == "go.mod" || n == "go.sum" {
+			data, err := os.ReadFile(filepath.Join(repo, n))
+			if err != nil {
+				return "fail", err.Error()
+			}
+			os.WriteFile(filepath.Join(dst, n), data, 0o644)
+		}
+	}
+	patch := filepath.Join(variantsDir, v.Name+".patch")
+	ap := exec.Command("git", "apply", "--whitespace=nowarn", patch)
+	ap.Dir = dst
+	if out, err := ap.CombinedOutput(); err != nil {
+		_ = out
+		return "skip", "patch does not apply"
+	}
+	cmd := exec.Command(self, "-repo", dst, "-property", prop, "-tier", "quick", "-no-selftest", "-evidence-dir", filepath.Join(tmp, "ev"))
+	out, _ := cmd.CombinedOutput()
+	code := cmd.ProcessState.ExitCode()
+	text := string(out)
+	if v.Kind == "benign" {
+		if code == 0 && !strings.Contains(text, "VIOLATION") {
+			return "ok", ""
+		}
+		return "fail", fmt.Sprintf("benign variant is not silent (exit %d): %s", code, short(firstViolation(text), 300))
+	}
+	// seeded
+	if code != 1 {
+		return "fail", fmt.Sprintf("seeded variant not reported (exit %d)", code)
+	}
+	for _, line := range strings.Split(text, "\n") {
+		if strings.Contains(line, v.Rule+":") && strings.Contains(line, v.Contains) {
+			return "ok", ""
+		}
+	}
+	return "fail", fmt.Sprintf("reported, but not by rule %s on a construct containing %q: %s", v.Rule, v.Contains, short(firstViolation(text), 300))
+}
+
+func firstViolation(text string) string {
+	lines := strings.Split(text, "\n")
+	for i, l := range lines {
+		if strings.HasPrefix(l, "VIOLATION") && i+1 < len(lines) {
+			return lines[i+1]
+		}
+	}
+	if len(lines) > 0 {
+		return lines[len(lines)-1]
+	}
+	return ""
+}
